@@ -6,7 +6,7 @@ VERIF = os.path.dirname(os.path.dirname(os.path.abspath(__file__)))
 REPO = os.environ.get('VERIF_REPO', '/repo')
 COQ = os.path.join(VERIF, 'coq')
 BUILD = os.path.join(VERIF, '_build')
-EVID = os.path.join(VERIF, 'evidence')
+EVID = os.environ.get('VERIF_EVIDENCE_DIR') or os.path.join(VERIF, 'evidence')
 REPLAY = os.path.join(EVID, 'replay')
 HARNESS = os.path.join(VERIF, 'harness')
 CARGO_TARGET = os.path.join(BUILD, 'cargo')
@@ -495,7 +495,7 @@ def build_ocaml():
         if os.path.exists(exe) and os.path.exists(stamp) and open(stamp).read() == h.hexdigest():
             return True, 'cached'
         os.makedirs(OCAML_DIR, exist_ok=True)
-        ok, log, dt = coq_make(['model/FrameDec.vo'])
+        ok, log, dt = coq_make(['model/FrameDec.vo', 'model/Matcher.vo'])
         if not ok:
             return False, log[-1500:]
         rc, out, err, dt = run(['coqc', '-Q', COQ, 'Zrs', os.path.join(COQ, 'extract', 'Extract.v')], cwd=OCAML_DIR, timeout=600)
